@@ -156,6 +156,19 @@ def run(ck):
 
     format_rules(ck, c)
 
+    # canonical stems: an odd-length stem keeps only the high nibble of its last byte (the padding nibble is zero); the stem
+    # bytes are hashed and stored as they are, so a stray nibble makes the hash depend on the history
+    sp = [p2 for p2 in c.paths() if p2.endswith("StemIter::<'a>::consumed_to_stem")]
+    if ck.anchor(len(sp) == 1, "DEFUSE", "StemIter::consumed_to_stem", "function exists"):
+        f = Fn(c.get(sp[0]))
+        news = f.calls(r"low_level::Stem::new$")
+        masked = []
+        for (bi, t) in news:
+            o = f.origins(t["args"][0], deep=True, outflow=True)
+            masked.append(any(a[0] == "bin" and a[1] == "BitAnd" for a in o) and ("lit", 240) in o)
+        ck.ob("DEFUSE", f.path, "odd-stem-padding-masked", len(news) >= 2 and any(masked) and not all(masked) or (len(news) >= 1 and all(masked)),
+              "the stem built for an odd number of consumed chunks masks its last byte with 0xf0 (constructions: %d, masked: %s)" % (len(news), masked), f.loc())
+
 
 # ---------------------------------------------------------------------------------------------------------------------
 # storage formats: every item of the documented node encodings is written (and read back) by its own site
